@@ -136,6 +136,35 @@ PaintedNullMapContentEqual(T) ==
         SumLen(Frags(T.out[o1].rows)) >= SumLen(Frags(T.out[o2].rows))
   /\ Cardinality({o \in 1..Len(T.out) : T.out[o].rank = 1}) = Len(T.map)
 
+\* ------------------------------------------------------------------ C09 (routing by tag, Target mode, haplotype)
+HasTag(pc, tg) == \E q \in 1..Len(pc.tags) : pc.tags[q] = tg
+GroupHasTag(grp, tg) == \E p \in 1..Len(grp.pieces) : HasTag(grp.pieces[p], tg)
+TargetSeenUpTo(T, g) == \E h \in 1..g : GroupHasTag(T.map[h], "Target")
+TargetEver(T) == Len(T.map) > 0 /\ TargetSeenUpTo(T, Len(T.map))
+\* haplotype of a name of the haplotype-resolved style: the part before the first underscore, lower case ("" = none);
+\* the scenario generator uses exactly two spellings per haplotype
+LcTag(tg) == IF tg \in {"HAP1", "Hap1"} THEN "hap1" ELSE IF tg \in {"hap2", "HAP2"} THEN "hap2" ELSE ""
+\* T.haps[s] = haplotype (lower case, "" = none) that the NAME of input scaffold s stands for, as exported by the scenario model
+GroupHap(T, grp) == LET tagged == {LcTag(x) : x \in UNION {{grp.pieces[p].tags[q] : q \in 1..Len(grp.pieces[p].tags)} : p \in 1..Len(grp.pieces)}} \ {""}
+                    IN IF tagged # {} THEN CHOOSE h \in tagged : TRUE ELSE T.haps[InputPos(T, grp.pieces[1].src)]
+\* the assembly (lower-case key; "" = primary) the statement sends a piece to
+PieceDest(T, g, p) ==
+  LET pc == T.map[g].pieces[p] IN
+  IF HasTag(pc, "FalseDuplicate") THEN "falseduplicate"
+  ELSE IF HasTag(pc, "Haplotig") THEN "haplotig"
+  ELSE IF HasTag(pc, "Contaminant") \/ (TargetSeenUpTo(T, g) /\ ~GroupHasTag(T.map[g], "Target")) THEN "contaminant"
+  ELSE GroupHap(T, T.map[g])
+RoutedByTag(T) ==
+  LET outL == [o \in 1..Len(T.out) |-> Layout(T.out[o].rows)] IN
+  \A x \in AllPieces(T) :
+     LET pc == T.map[x[1]].pieces[x[2]]  hits == CoreHits(T, outL, pc) IN
+     (Core(T, pc) # <<>>) => (Cardinality(hits) = 1 /\ T.out[(CHOOSE h \in hits : TRUE)[1]].asm_lc = PieceDest(T, x[1], x[2]))
+\* sequence absent from the map: contaminant once a Target tag exists anywhere, otherwise the assembly of its name's haplotype
+AbsentScaffolds(T) == {s \in 1..Len(T.input) : \A x \in AllPieces(T) : T.map[x[1]].pieces[x[2]].src # T.input[s].name}
+AbsentRouted(T) ==
+  \A s \in AbsentScaffolds(T) : \A c \in Range(Frags(T.input[s].rows)) : \A o \in 1..Len(T.out) :
+     (\E f \in Range(Frags(T.out[o].rows)) : Inside(f, c)) => T.out[o].asm_lc = (IF TargetEver(T) THEN "contaminant" ELSE T.haps[s])
+
 \* ------------------------------------------------------------------ C11
 CutsDef(T) == Len(OutFrags(T)) - Len(InContigs(T))
 BreaksDef(T) == Cardinality(AdjSet(AllJunctions(T.input)) \ AdjSet(AllJunctions(T.out)))
